@@ -1027,4 +1027,4 @@ func SpecRdbBuffered(r *memoryRdb) int64 { panic("abstract spec function") }
 //@   modifies heap
 //@   ensures no_log_segment_goes_while_a_snapshot_is_on_offer [C16]: mc.rdb != nil && mc.rdb.replayable ==> len(mc.aofSegs) == old(len(mc.aofSegs))
 //@   loop 1:
-//@     invariant oldest_first: mc != nil && (mc.rdb != nil && mc.rdb.replayable ==> len(mc.aofSegs) == old(len(mc.aofSegs)))
+//@     invariant oldest_first: mc != nil && (old(mc.rdb == nil || !mc.rdb.replayable) ==> mc.rdb == nil || !mc.rdb.replayable) && (mc.rdb != nil && mc.rdb.replayable ==> len(mc.aofSegs) == old(len(mc.aofSegs)))
